@@ -677,12 +677,12 @@ class RequestHandler(BaseProtocol, Generic[_Request]):
         request_handler: Callable[[_Request], Awaitable[StreamResponse]],
     ) -> tuple[StreamResponse, bool]:
         self._request_in_progress = True
+        # Registered until the response is finished: writing it may still read
+        # the request body (a response built on request.content, a signal),
+        # which connection_lost() and shutdown() fail through this reference.
+        self._current_request = request
         try:
-            try:
-                self._current_request = request
-                resp = await request_handler(request)
-            finally:
-                self._current_request = None
+            resp = await request_handler(request)
         except HTTPException as exc:
             # Uncaught parser error
             if request._pre_handler_error is exc:
@@ -755,6 +755,7 @@ class RequestHandler(BaseProtocol, Generic[_Request]):
                 resp = self.handle_error(request, 500, exc)
                 resp, reset = await self.finish_response(request, resp, start_time)
         finally:
+            self._current_request = None
             self._request_in_progress = False
             # shutdown() may have given up (timeout, cancellation) a moment ago:
             # the future is cancelled before shutdown() runs again to drop it.
